@@ -25,7 +25,7 @@ ASSUMPTIONS = [
     'XML-illegal characters and the DOCTYPE line are set aside before parsing, as the statement says',
 ]
 FLOOR = {'quick': 500, 'thorough': 2500}
-SPACE = {'quick': '29 payloads x 48 sinks', 'thorough': 'quick + all ordered pairs of 40 sinks x 2 payloads'}
+SPACE = {'quick': '36 payloads x 56 sinks (42 element-text sinks, 9 attribute-value sinks, 5 command-line / file-name sinks); docformat resolution: own x sub-package x root-package declaration in {none, restructuredtext, plaintext, epytext} x 2 command-line formats, quoted raw directive as docstring', 'thorough': 'quick + all ordered pairs of 40 sinks x 2 payloads'}
 JOB_TIMEOUT = 2300
 
 M = 'zqx1'
@@ -35,6 +35,7 @@ PAYLOADS = [
     '\x01zqx1', '\x0bzqx1', '\x7fzqx1', '\ufffezqx1', '\u2028zqx1', 'javascript:zqx1', '<a href=zqx1>', 'x--<zqx1>y</zqx1>', '--opt=<zqx1 onzqa1="1">v</zqx1>',
     'a\r\r.. raw:: html\r\r   <zqx1>t</zqx1>\r\r..', '<zqx1/>\xa0<zqx1/>', 'a\x1c\x1c.. raw:: html\x1c\x1c   <zqx1>t</zqx1>\x1c\x1c..',
     'x`` `k <javascript:zqx1>`_ ``y', '` `k <javascript:zqx1>`_ `',
+    'zqx1" onzqa1="1', "zqx1' onzqa1='1", 'zqx1"onzqa1="1', 'zqx1" onzqa1="1" x="',
 ]
 DANGEROUS = ['"><zqx1 onzqa1="1">', 'x--<zqx1>y</zqx1>']
 
@@ -88,6 +89,27 @@ SINKS: Dict[str, Tuple[str, Callable[[str], str], bool]] = {
     'attrs-ib':        ('epytext', lambda P: f'import attr\n@attr.s\nclass K:\n    a = attr.ib(default={pylit(P)}, type={pylit(P)})\n', False),
     'exc-base':        ('epytext', lambda P: f'class E(Exception):\n    """E {P}"""\nclass F(E): pass\n', False),
 }
+def esc_sp(P: str) -> str:
+    """a value inside reST markup where whitespace has to be backslash-escaped to stay part of the value"""
+    return P.replace('\\', '\\\\').replace(' ', '\\ ')
+
+
+# sinks where the text ends up in an attribute VALUE written by docutils / the translator (raw docstrings: they contain backslashes)
+SINKS.update({
+    'rst-link-target':  ('restructuredtext', lambda P: f'def f():\n    r\'\'\'Doc `k <http://x/{esc_sp(P)}>`_ end.\'\'\'\n', False),
+    'rst-target-def':   ('restructuredtext', lambda P: f'def f():\n    r\'\'\'Doc k_ end.\n\n    .. _k: http://x/{esc_sp(P)}\n    \'\'\'\n', False),
+    'rst-image-alt':    ('restructuredtext', lambda P: f'def f():\n    r\'\'\'Doc.\n\n    .. image:: http://x/i.png\n       :alt: {P}\n    \'\'\'\n', False),
+    'rst-image-uri':    ('restructuredtext', lambda P: f'def f():\n    r\'\'\'Doc.\n\n    .. image:: http://x/{esc_sp(P)}\n    \'\'\'\n', False),
+    'rst-image-target': ('restructuredtext', lambda P: f'def f():\n    r\'\'\'Doc.\n\n    .. image:: http://x/i.png\n       :target: http://x/{esc_sp(P)}\n       :width: 10\n    \'\'\'\n', False),
+    'rst-class-option': ('restructuredtext', lambda P: f'def f():\n    r\'\'\'Doc.\n\n    .. note::\n       :class: {P}\n       :name: {P}\n\n       text\n    \'\'\'\n', False),
+    'google-link-target': ('google', lambda P: f'def f(a):\n    r\'\'\'Doc.\n\n    Args:\n        a: see `k <http://x/{esc_sp(P)}>`_\n    \'\'\'\n', False),
+    'numpy-image-alt':  ('numpy', lambda P: f'def f(a):\n    r\'\'\'Doc.\n\n    Notes\n    -----\n    .. image:: http://x/i.png\n       :alt: {P}\n    \'\'\'\n', False),
+    'epy-url-target':   ('epytext', lambda P: f'def f():\n    r\'\'\'Doc U{{k<http://x/{P}>}} end.\'\'\'\n', False),
+})
+# the author wrote these values as link targets: what the URL does is theirs (statement), breaking out of the attribute is not
+AUTHOR_URL = {'rst-link-target', 'rst-target-def', 'rst-image-uri', 'rst-image-target', 'google-link-target', 'epy-url-target'}
+VALUE_SINKS = AUTHOR_URL | {'rst-image-alt', 'rst-class-option', 'numpy-image-alt'}
+
 # sinks that need their own runner
 SPECIAL = ['file-name', 'project-name', 'project-url', 'project-version', 'html-viewsource-base', 'intersphinx-free']
 DOCSTRING_SINKS = ('doc-', 'field-', 'xref-', 'title-', 'url-', 'ivar-', 'summary', 'ctor-summary', 'attr-doc', 'exc-base')
@@ -112,6 +134,7 @@ def check_page(path: str) -> Tuple[List[Tuple[str, str]], str]:
             if M in k.lower() or 'onzqa' in k.lower():
                 probs.append(('attribute-name', k))
             if M in v:
+                text.append('\x00attr:' + v + '\x00')     # attribute values count as 'the marker reached the page', not as displayed text
                 if k.lower().startswith('on'):
                     probs.append(('event-handler-value', k))
                 if k.lower() in ('href', 'src', 'action', 'formaction', 'data') and v.strip().lower().startswith('javascript:'):
@@ -157,6 +180,10 @@ def check_page(path: str) -> Tuple[List[Tuple[str, str]], str]:
     return probs, ''.join(text)
 
 
+def shown_text(t: str) -> str:
+    return re.sub('\x00attr:[^\x00]*\x00', '', t)
+
+
 def run_case(files: Dict[str, Any], fmt: str, extra: Sequence[str], payloads: Sequence[str], verbatim: bool, label: str, case: Dict[str, Any], res: Dict[str, Any]) -> None:
     res['evals'] += 1
     with pd.cli_run(files, ['-q', '--docformat', fmt, *extra], roots=['pk']) as r:
@@ -174,6 +201,8 @@ def run_case(files: Dict[str, Any], fmt: str, extra: Sequence[str], payloads: Se
             if M in text or any(probs):
                 reached = True
             for clause, detail in probs:
+                if clause == 'script-url' and label in AUTHOR_URL:
+                    continue
                 page = 'summary-page' if f in ('nameIndex.html', 'classIndex.html', 'moduleIndex.html', 'undoccedSummary.html', 'all-documents.html') else 'object-page'
                 sig = (clause, label, page) if clause != 'ill-formed-page' else (clause, label, page, detail.split(':')[0])
                 if clause == 'script-url':
@@ -189,7 +218,7 @@ def run_case(files: Dict[str, Any], fmt: str, extra: Sequence[str], payloads: Se
             P = payloads[0]
             if not ILLEGAL.search(P) and '\r' not in P and '\u2028' not in P and '\xa0' not in P:
                 norm = lambda s: re.sub(r'\s+', ' ', s)   # noqa: E731
-                if norm(P) not in norm(alltext):
+                if norm(P) not in norm(shown_text(alltext)):
                     res['violations'].append(core.violation(f'payload-not-shown-literally/{label}', f'sink {label}: payload {P!r} is not recoverable literally from the text of any page (dropped or decoded twice)', case))
     if len(res['samples']) < 2:
         res['samples'].append({'sink': label, 'payloads': list(payloads), 'docformat': fmt})
@@ -197,8 +226,10 @@ def run_case(files: Dict[str, Any], fmt: str, extra: Sequence[str], payloads: Se
 
 def judge(sink: str, P: str, res: Dict[str, Any]) -> None:
     case = {'kind': 'single', 'sink': sink, 'payload': P}
-    if ('.. raw::' in P or '`' in P) and sink.startswith(DOCSTRING_SINKS):
+    if ('.. raw::' in P or '`' in P) and (sink.startswith(DOCSTRING_SINKS) or sink in VALUE_SINKS):
         return      # a raw directive or an explicit hyperlink target written in a docstring is the author's own markup, which the statement excludes
+    if sink in VALUE_SINKS and ("'''" in P or '\\' in P or '\n' in P or '\r' in P):
+        return
     if sink in SINKS:
         fmt, fn, verbatim = SINKS[sink]
         try:
@@ -226,6 +257,44 @@ def judge(sink: str, P: str, res: Dict[str, Any]) -> None:
         run_case({'pk/__init__.py': '"""P."""\ndef f(): "x"\n'}, 'epytext', [f'{opt}={P}'], [P], False, sink, case, res)
 
 
+# ---- which parser reads a docstring: the module's own __docformat__, else the nearest enclosing package's, else the command line's.
+# Text of a module whose effective format is not reST-based can never be read as a reST directive.
+DF = (None, 'restructuredtext', 'plaintext', 'epytext')
+RAW = 'Quoting markup as prose:\n\n.. raw:: html\n\n   <zqx1 onzqa1="1">t</zqx1>\n\nEnd `k <javascript:zqx1>`_ and <zqx1>.\n'
+
+
+def judge_docformat(root: Optional[str], sub: Optional[str], mod: Optional[str], cli: str, lang: bool, res: Dict[str, Any]) -> None:
+    def decl(f: Optional[str]) -> str:
+        return f'__docformat__ = {(f + (" en" if lang else ""))!r}\n' if f else ''
+    eff = mod or sub or root or cli
+    doc = '    ' + RAW.replace('\n', '\n    ')
+    body = f'def f():\n    \'\'\'\n{doc}\'\'\'\n'
+    files = {'pk/__init__.py': f'"P."\n{decl(root)}', 'pk/sub/__init__.py': f'"S."\n{decl(sub)}', 'pk/sub/m.py': f'"M."\n{decl(mod)}{body}',
+             'pk/top.py': f'"T."\n{decl(mod)}{body}'}
+    if eff in ('restructuredtext',):
+        return          # the author wrote reST on purpose
+    label = f'docformat:{root}/{sub}/{mod}/cli={cli}' + ('/lang' if lang else '')
+    case = {'kind': 'docformat', 'root': root, 'sub': sub, 'mod': mod, 'cli': cli, 'lang': lang}
+    res['evals'] += 1
+    with pd.cli_run(files, ['-q', '--docformat', cli], roots=['pk']) as r:
+        if r.exc or r.status not in (0, 2, 3):
+            res['violations'].append(core.violation(f'run-failed/{r.exc_type}@{r.exc_site}/docformat', f'driver failed on {label}: {r.exc_type}', case))
+            return
+        res['nontrivial'].add(core.h(label))
+        for page, expect in (('pk.sub.m.html', mod or sub or root or cli), ('pk.top.html', mod or root or cli)):
+            if expect == 'restructuredtext':
+                continue
+            probs, text = check_page(os.path.join(r.out, page))
+            res['outcomes'].add(('docformat', expect, bool(probs)))
+            where = 'module-in-subpackage' if 'sub' in page else 'module-in-package'
+            for clause, detail in probs:
+                res['violations'].append(core.violation(f'{clause}/docformat-resolution/{where}/own={mod}/package={sub if "sub" in page else root}',
+                                                        f'{label}: the docstring of {page[:-5]} is to be read as {expect}, yet {clause} ({detail!r})', case))
+            if '<zqx1 onzqa1="1">t</zqx1>' not in shown_text(text):
+                res['violations'].append(core.violation(f'quoted-markup-not-shown/docformat-resolution/{where}/own={mod}/package={sub if "sub" in page else root}',
+                                                        f'{label}: the docstring of {page[:-5]} is to be read as {expect}; the quoted snippet is not shown as text', case))
+
+
 def judge_pair(s1: str, s2: str, P: str, res: Dict[str, Any]) -> None:
     f1, fn1, _ = SINKS[s1]
     f2, fn2, _ = SINKS[s2]
@@ -244,6 +313,8 @@ def judge_pair(s1: str, s2: str, P: str, res: Dict[str, Any]) -> None:
 def jobs(tier: str) -> Iterable[Tuple[str, Any]]:
     for s in list(SINKS) + SPECIAL[:5]:
         yield ('payload-x-sink', ('sink', s))
+    for root in DF:
+        yield ('docformat-resolution', ('docformat', root))
     if tier == 'thorough':
         for s in SINKS:
             yield ('sink-pairs', ('pairs', s))
@@ -254,6 +325,12 @@ def run_job(job: Any, tier: str) -> Dict[str, Any]:
     if job[0] == 'sink':
         for P in PAYLOADS:
             judge(job[1], P, res)
+    elif job[0] == 'docformat':
+        for sub in DF:
+            for mod in DF:
+                for cli in ('restructuredtext', 'plaintext'):
+                    for lang in ((False, True) if tier == 'thorough' or mod == 'plaintext' else (False,)):
+                        judge_docformat(job[1], sub, mod, cli, lang, res)
     else:
         for s2 in SINKS:
             for P in DANGEROUS:
@@ -265,6 +342,8 @@ def replay(case: Dict[str, Any]) -> List[Dict[str, Any]]:
     res = core.result()
     if case['kind'] == 'single':
         judge(case['sink'], case['payload'], res)
+    elif case['kind'] == 'docformat':
+        judge_docformat(case['root'], case['sub'], case['mod'], case['cli'], case['lang'], res)
     else:
         judge_pair(case['s1'], case['s2'], case['payload'], res)
     return res['violations']
